@@ -11,7 +11,7 @@ def run(tier, seed, replay):
     v = vlib.Verdict("C15", tier, seed)
     vlib.build_harness()
     vlib.gen_rom()
-    suites = ["shapes1", "shapes2", "addr"] + (["alusame", "alu"] if tier == "thorough" else [])
+    suites = ["shapes1", "shapes2", "addr", "alupairs"] + (["alusame", "alu"] if tier == "thorough" else [])
     states = trans = 0
     per_suite = {}
     for s in suites:
